@@ -290,7 +290,7 @@ def match_known(known, pid, key):
 
 
 def write_replay(pid, payload):
-    rdir = os.path.join(WORK, pid + "_alt", "replays") if ALT else os.path.join(ROOT, "replays")
+    rdir = os.path.join(WORK, "alt_replays") if ALT else os.path.join(ROOT, "replays")
     os.makedirs(rdir, exist_ok=True)
     h = hashlib.sha256(json.dumps(payload, sort_keys=True, default=str).encode()).hexdigest()[:10]
     path = os.path.join(rdir, "%s_%s.json" % (pid, h))
@@ -303,7 +303,7 @@ def run_check(pid, tier, seed, replay=None):
     t0 = time.time()
     cfg = load_cfg(pid)
     known = load_known()
-    work = os.path.join(WORK, pid + ("_alt" if ALT else ""))
+    work = os.path.join(WORK, pid + (("_alt%d" % os.getpid()) if ALT else ""))
     shutil.rmtree(work, ignore_errors=True)
     os.makedirs(work, exist_ok=True)
     log = []
@@ -519,6 +519,8 @@ def run_check(pid, tier, seed, replay=None):
     if not os.environ.get("VERIF_KEEP"):
         for d in glob.glob(os.path.join(work, "run_*")) + glob.glob(os.path.join(work, "search_*")):
             shutil.rmtree(d, ignore_errors=True)
+        if ALT:
+            shutil.rmtree(work, ignore_errors=True)
     return rc
 
 
